@@ -101,6 +101,7 @@ type Recorder struct {
 	OpenConns int
 	hook      atomic.Value // Hook
 	CtxKey    interface{}
+	openStmtQ map[int64]string
 	// FirstIDMode makes LastInsertId report the first id of a multi-row insert
 	// (MySQL-like) instead of the last (SQLite).
 	FirstIDMode bool
@@ -147,6 +148,17 @@ func (r *Recorder) Reset() {
 	r.mu.Lock()
 	r.events = r.events[:0]
 	r.mu.Unlock()
+}
+
+// OpenStmtQueries lists the driver statements that are still open.
+func (r *Recorder) OpenStmtQueries() []string {
+	r.mu.Lock()
+	defer r.mu.Unlock()
+	var out []string
+	for _, q := range r.openStmtQ {
+		out = append(out, q)
+	}
+	return out
 }
 
 type Counters struct{ OpenTx, OpenStmts, OpenRows, OpenConns int }
@@ -258,7 +270,13 @@ func (c *conn) PrepareContext(ctx context.Context, query string) (driver.Stmt, e
 		c.rec.finish(idx, e.Seq, err, false, nil)
 		return nil, err
 	}
-	c.rec.finish(idx, e.Seq, nil, false, func() { c.rec.OpenStmts++ })
+	c.rec.finish(idx, e.Seq, nil, false, func() {
+		c.rec.OpenStmts++
+		if c.rec.openStmtQ == nil {
+			c.rec.openStmtQ = map[int64]string{}
+		}
+		c.rec.openStmtQ[sid] = fmt.Sprintf("conn %d tx %d: %s", c.id, e.Tx, query)
+	})
 	return &stmt{base: st.(*sqlite3.SQLiteStmt), c: c, id: sid, query: query}, nil
 }
 
@@ -402,6 +420,7 @@ func (s *stmt) Close() error {
 	s.c.rec.finish(idx, e.Seq, err, false, func() {
 		if first {
 			s.c.rec.OpenStmts--
+			delete(s.c.rec.openStmtQ, s.id)
 		}
 	})
 	return err
